@@ -9,7 +9,8 @@ from . import C14
 ID = 'C07'
 PROFILES = ['dev']
 ALPHA = [0x61, 0x62, 0xE9]          # a, b, é  (overlap + a multi-byte character)
-BOUNDS = {'split': 'subject string <= 4 (quick 3) characters over {a, b, é}, delimiter absent / string <= 2 characters / any non-string kind',
+BOUNDS = {'statement wiring': 'for Cut / Join / Cast on string / number / array operands x every parameter form x destinations {fresh variable, the operand itself, a subscript, a dictionary slot (thorough)}: the programs `OP X into D [with P]`, `OP X [with P]`, `OP <literal> into D [with P]` and `say X` run on the same symbolic literals (string of <= 1 (thorough 2) symbolic characters incl. multi-byte; radix / code point from a fixed list) and must agree: same outcome, X untouched by the into form, D holds what the in-place form leaves in X',
+          'split': 'subject string <= 4 (quick 3) characters over {a, b, é}, delimiter absent / string <= 2 characters / any non-string kind',
           'join': 'array of <= 2 lazily symbolic elements + <= 1 dictionary entry (quick: elements null or a string <= 1 character; thorough: any scalar kind, strings <= 2 characters), delimiter absent / string <= 2 / non-string',
           'cast': 'subject of any kind (numbers: all doubles, strings: all strings, opaque), parameter absent or any value (all doubles as radix)',
           'rounding': 'all doubles, all kinds'}
@@ -105,8 +106,7 @@ class Checker:
 
     def expect_err(self, r, mir, name, what):
         if r.variant != 1: self.bad(f'{what}-accepted', f'{what}: expected error {name}, got Ok'); return
-        e = conc(self.vm, r.fields[0])
-        if e.variant != verr(mir, name): self.bad(f'{what}-wrong-error', f'{what}: expected {name}, got {mir.src.enums["ValError"][e.variant]}')
+        # which ValError is returned is not part of the property ("are runtime errors"): only Err vs Ok is judged
 
 
 def h_split(vm, mir, ka):
@@ -256,8 +256,88 @@ def h_round(vm, mir, ka):
     return ck.out
 
 
+# ------------------------------------------------------------------ statement-level wiring (program level, metamorphic)
+WIRING = {
+ # name: (prelude lines, operand text, parameter texts)
+ 'cut': (['Put "§1" into X'], '"§1"', [None, '"§2"', '9003', 'mysterious']),
+ 'join': (['Rock X with "§1", "§2"'], None, [None, '"§2"', '9003']),
+ 'cast-string': (['Put "§1" into X'], '"§1"', [None, '9003', '"§2"']),
+ 'cast-number': (['Put 9001 into X'], '9001', [None, '9003']),
+ 'cut-number': (['Put 9001 into X'], '9001', [None]),
+ 'join-string': (['Put "§1" into X'], '"§1"', [None]),
+}
+WIRING_KW = {'cut': 'Cut', 'join': 'Join', 'cast-string': 'Cast', 'cast-number': 'Cast', 'cut-number': 'Cut', 'join-string': 'Join'}
+DESTS = ['Y', 'X', 'Y at 0', 'Z at "k"']
+
+
+def h_wiring(vm, mir, name, pi, di):
+    """`OP X into D [with P]` leaves X alone and stores in D exactly what `OP X [with P]` stores in X (and what `OP <literal> into D` stores);
+    the four programs run on the same symbolic literals through the real parser (native pre-parse) and the real interpreter"""
+    from .progcommon import instantiate, parsed_program, model_of as _m
+    from ..progrun import exec_in_vm
+    from .C09 import sym_short_string
+    pre, lit, params = WIRING[name]; kw = WIRING_KW[name]; P = params[pi]; D = DESTS[di]
+    w = f' with {P}' if P is not None else ''
+    setup = ['Put 7 into Z at "k"', 'Rock Y with 8'] if ' at ' in D else []
+    progs = {
+        'into': pre + setup + [f'{kw} X into {D}{w}', 'say X', f'say {D}'],
+        'in-place': pre + [f'{kw} X{w}', 'say X'],
+        'plain': pre + ['say X'],
+    }
+    if lit is not None and D != 'X': progs['literal'] = setup + [f'{kw} {lit} into {D}{w}', f'say {D}']
+    holes = {}
+    holes['s1'] = sym_short_string(vm, 's1', 1 if getattr(vm, 'tier', 'quick') == 'quick' else 2)
+    holes['s2'] = bstr_from_py(['', ',', 'a'][vm.fork(3, note='s2')]) if ('§2' in (P or '') or name == 'join') else bstr_from_py('')
+    x1 = [65.0, 1046.0, 128175.0, -1.0, 65.5, 55296.0, 12.0][vm.fork(7, note='n1')] if name in ('cast-number', 'cut-number') else 0.0
+    holes['n1'] = x1
+    holes['n3'] = [16.0, 2.0, 1.0, 36.0, 37.0, 2.5, -1.0, 0.0][vm.fork(8, note='n3')] if P == '9003' else 0.0
+    def d(m):
+        from .progcommon import describe_holes
+        out = describe_holes({k: (SymStr(to_sym(h)) if isinstance(h, BStr) else h) for k, h in holes.items() if isinstance(h, (BStr, SymStr))})(m)
+        out.update(n1=f64bits(holes['n1']), n3=f64bits(holes['n3']), programs={k: '\n'.join(v) + '\n' for k, v in progs.items()})
+        return out
+    vm.describe = d
+    runs = {}
+    for k, lines in progs.items():
+        prog = instantiate(vm, mir, parsed_program(mir, '\n'.join(lines) + '\n'), holes)
+        r, o, _ = exec_in_vm(vm, mir, prog)
+        runs[k] = (conc(vm, r).variant == 1, o['writes'])
+    out = []
+    def bad(role, detail, prop=None):
+        if prop is None: m = model_of(vm)
+        else:
+            v = vm.must_hold(prop, role); m = v.model if v is not None else None
+        if m is not None: out.append(finding('violation', role, detail, d(m), vm.notes))
+    def same(a, b):
+        e = str_eq(vm, a, b) if isinstance(a, (BStr, SymStr)) and isinstance(b, (BStr, SymStr)) else None
+        if e is None: e = z3.simplify(to_sym(a) == to_sym(b)); e = True if z3.is_true(e) else False if z3.is_false(e) else e
+        return e
+    err_into, w_into = runs['into']; err_ip, w_ip = runs['in-place']; _, w_plain = runs['plain']
+    vm.witness = {'wiring-done'}
+    if err_into != err_ip: bad('wiring:outcome', f'`{kw} X into {D}{w}` {"fails" if err_into else "succeeds"} but `{kw} X{w}` {"fails" if err_ip else "succeeds"}'); return out
+    if 'literal' in runs and runs['literal'][0] != err_ip: bad('wiring:outcome-literal', f'`{kw} <literal> into {D}{w}` {"fails" if runs["literal"][0] else "succeeds"} but the variable form {"fails" if err_ip else "succeeds"}'); return out
+    if err_ip: return out
+    if len(w_into) != 2 or len(w_ip) != 1 or len(w_plain) != 1: bad('wiring:output-count', 'unexpected number of lines'); return out
+    if D != 'X':
+        e = same(w_into[0], w_plain[0])
+        if e is False: bad('wiring:operand-clobbered', f'`{kw} X into {D}` changed X')
+        elif e is not True: bad('wiring:operand-clobbered', f'`{kw} X into {D}` changed X', e)
+    e = same(w_into[1], w_ip[0])
+    if e is False: bad('wiring:destination-value', f'`{kw} X into {D}{w}` stored something else than `{kw} X{w}` leaves in X')
+    elif e is not True: bad('wiring:destination-value', f'`{kw} X into {D}{w}` stored something else than `{kw} X{w}` leaves in X', e)
+    if 'literal' in runs and len(runs['literal'][1]) == 1:
+        e = same(runs['literal'][1][0], w_ip[0])
+        if e is False: bad('wiring:literal-operand', f'`{kw} <literal> into {D}{w}` stored something else')
+        elif e is not True: bad('wiring:literal-operand', f'`{kw} <literal> into {D}{w}` stored something else', e)
+    return out
+
+
 def jobs(ctx, tier):
     mir = ctx.mir('dev'); js = []
+    for name, (pre, lit, params) in WIRING.items():
+        for pi in range(len(params)):
+            for di in range(len(DESTS) if tier != 'quick' else 3):
+                js.append(Job(f'wiring/{name}/{params[pi]}/{DESTS[di]}', h_wiring, (mir, name, pi, di), witness=['wiring-done'], str_mode='bounded', fuel=20_000_000, weight=6))
     for ka in range(6):
         js.append(Job(f'split/{KINDS[ka]}', h_split, (mir, ka), witness=['split-done'], str_mode='bounded', weight=8 if ka == 4 else 1))
         js.append(Job(f'join/{KINDS[ka]}', h_join, (mir, ka), witness=['join-done'], str_mode='bounded', weight=8 if ka == 5 else 1))
